@@ -1,4 +1,4 @@
-CONSTANTS N = 1  Calls <- C1  Kinds <- KRR  Steps <- S5_30  MaxSend = 10  Reconn <- RBoth  Overlap = FALSE  KeepAlive = FALSE  PingNeutral = FALSE
+CONSTANTS N = 1  Calls <- C1  Kinds <- KRR  Steps <- S5_30  MaxSend = 10  Reconn <- RBoth  Overlap = FALSE  KeepAlive = FALSE  PingNeutral = FALSE  Faults = FALSE
 SPECIFICATION Spec
 CONSTRAINT SendBound
 INVARIANTS TypeOK RotationIsHealthy ProbeQueueSingle ProbesTargetBlocked FailuresCounted CallsGoSomewhere
